@@ -81,7 +81,8 @@ def startIfNeeded (st : St) (pos : Nat) : St :=
     else match st.tfra with
       | some offs => (segIdx < offs.length ∧ pos = offs.getD segIdx 0) ∨ segIdx = 0
       | none => if st.startOnMoof then true else segIdx = 0
-  if start then { st with segs := st.segs ++ [{ startPos := pos }] } else st
+  -- a fragment must belong to a segment: the first one always starts a segment
+  if start ∨ segIdx = 0 then { st with segs := st.segs ++ [{ startPos := pos }] } else st
 
 def updLastSeg (st : St) (f : Seg → Seg) : St :=
   match st.segs.reverse with
